@@ -27,6 +27,7 @@
 //   * in-target exclusion of known findings by class (ids in VERIF_KNOWN):
 //       nested-attribute-exponential : attributes nested more than C16_ATTR_NEST_CAP deep in attribute arguments
 //       macro-mutual-recursion-hang  : a function-like macro on a cycle of the macro reference graph
+//       typedef-struct-alias-uaf     : the text contains "typedef" and ("struct" or "enum")
 #include <occa.hpp>
 #include <occa/internal/io/output.hpp>
 #include <occa/internal/utils/env.hpp>
@@ -96,8 +97,8 @@ namespace occa {
 // ---- statistics (fixed-size storage only: an allocation that outlives one input makes libFuzzer run leak checks) ----
 enum { O_ACCEPT = 0, O_REJECT, O_THROW, O_COUNT };
 static const char *O_NAMES[O_COUNT] = {"accepted", "rejected(errors reported)", "rejected(occa::exception)"};
-enum { K_ATTRNEST = 0, K_MACROCYCLE, K_COUNT };
-static const char *K_IDS[K_COUNT] = {"nested-attribute-exponential", "macro-mutual-recursion-hang"};
+enum { K_ATTRNEST = 0, K_MACROCYCLE, K_TYPEDEF, K_COUNT };
+static const char *K_IDS[K_COUNT] = {"nested-attribute-exponential", "macro-mutual-recursion-hang", "typedef-struct-alias-uaf"};
 #ifndef C16_ATTR_NEST_CAP
 #define C16_ATTR_NEST_CAP 4
 #endif
@@ -444,6 +445,10 @@ extern "C" int LLVMFuzzerTestOneInput(const uint8_t *data, size_t size) {
   collectMacros((const char*) text, n);
   if (g_macroCount && macroExpansionUnbounded((const char*) text, n)) { ++g_macro; return 0; }
   if (g_knownOn[K_MACROCYCLE] && g_macroCount > 1 && macroCycleThroughFunctionLike()) { ++g_known[K_MACROCYCLE]; return 0; }
+  if (g_knownOn[K_TYPEDEF] && memmem(text, n, "typedef", 7) && (memmem(text, n, "struct", 6) || memmem(text, n, "enum", 4))) {
+    ++g_known[K_TYPEDEF];
+    return 0;
+  }
   if (g_knownOn[K_ATTRNEST] && attributeNesting((const char*) text, n) > C16_ATTR_NEST_CAP) { ++g_known[K_ATTRNEST]; return 0; }
 
   // exact-size heap copy; it outlives the parser (tokens and diagnostics point into it)
